@@ -235,6 +235,34 @@ theorem witness_canon_loses_member :
     mem canon_loses_v canon_loses_K = true ∧ canonLawM canon_loses_v canon_loses_K = false ∧
     canonClass canon_loses_K = .canon_exact_to_infinite := by decide
 
+/-! `D_inf_over_exact` reached through `at_path`, `insert` and `remove` (they union kinds with
+    `merge_keep` / `Collection::merge`), and `canonicalize` adding a member. -/
+def infx_K : Kind :=
+  (Kind.mk {} (.some (.mk (.cons [0] (Kind.mk {} (.some (.mk .nil (.exact (Kind.mk { timestamp := true } .none .none)))) .none) .nil) (.infinite { bytes := true, integer := true, float := true, boolean := true, null := true, array := true, object := true }))) .none)
+def infx_v : Value :=
+  (.arr (.cons (.arr (.cons (.ts (0)) .nil)) .nil))
+theorem witness_at_inf_over_exact :
+    mem infx_v infx_K = true ∧ atLawM infx_v infx_K [.index (-1)] = false ∧
+    atClass infx_K [.index (-1)] = .inf_over_exact := by decide
+theorem witness_insert_inf_over_exact :
+    mem infx_v infx_K = true ∧
+    insertLawM infx_v infx_K [.index (-2)] (.int 1) Kind.integer = false ∧
+    insertClass infx_K [.index (-2)] Kind.integer = .inf_over_exact := by decide
+def infx_K3 : Kind :=
+  (Kind.mk {} (.some (.mk (.cons [0] (Kind.mk { integer := true } .none .none) (.cons [1] (Kind.mk {} (.some (.mk .nil (.exact (Kind.mk { timestamp := true } .none .none)))) .none) .nil)) (.infinite { bytes := true, integer := true, float := true, boolean := true, null := true, array := true, object := true }))) .none)
+def infx_v3 : Value :=
+  (.arr (.cons (.int (5)) (.cons (.arr (.cons (.ts (0)) .nil)) (.cons (.bytes [120]) .nil))))
+theorem witness_remove_inf_over_exact :
+    mem infx_v3 infx_K3 = true ∧ removeLawM infx_v3 infx_K3 [.index (-1)] false = false ∧
+    removeClass infx_K3 [.index (-1)] false = .inf_over_exact := by decide
+def canon_adds_K : Kind :=
+  (Kind.mk {} (.some (.mk .nil (.exact (Kind.mk { bytes := true, integer := true, float := true, boolean := true, timestamp := true, regex := true, null := true } (.some (.mk .nil (.exact (Kind.mk { integer := true } .none .none)))) (.some (.mk .nil (.infinite { bytes := true, integer := true, float := true, boolean := true, timestamp := true, regex := true, null := true, array := true, object := true }))))))) .none)
+def canon_adds_v : Value :=
+  (.arr (.cons (.arr (.cons (.bytes [115]) .nil)) .nil))
+theorem witness_canon_adds_member :
+    mem canon_adds_v canon_adds_K = false ∧ mem canon_adds_v canon_adds_K.canonicalize = true ∧
+    canonClass canon_adds_K = .canon_exact_to_infinite := by decide
+
 /-! ### non-vacuity of the hypotheses of the `_partial` theorems (concrete, non-trivial states) -/
 
 def nv_K : Kind :=
